@@ -103,6 +103,7 @@ def run_config(ctx, case):
     h = h[ok]
     if len(x) == 0:
         return
+    ctx.evaluated(len(x))
     ctx.api(f"{name}.forward", 9)
     ctx.api(f"{name}.jacobian")
     try:
@@ -213,6 +214,7 @@ def run_softmax(ctx, t, case, rng):
         ctx.check("jacobian.is-derivative", abs(J - det) <= 1e-4 * abs(det) and J > 0,
                   "Softmax|regular|jacobian-vs-derivative", case,
                   lambda: {"x": x.tolist(), "jacobian": J, "fd_determinant": det})
+        ctx.evaluated(1)
         ctx.nontrivial("Softmax", x)
 
 
